@@ -66,7 +66,7 @@ def _brief(c: dict) -> dict:
 
 
 def run_all(props: list[str] | None, jobs: int, ids: list[str] | None = None) -> list[dict]:
-    cases = [c for c in load_corpus() if (not props or c['prop'] in props) and (not ids or c['id'] in ids)]
+    cases = [c for c in load_corpus() if c['prop'] != '*' and (not props or c['prop'] in props) and (not ids or c['id'] in ids)]
     with cf.ThreadPoolExecutor(max_workers=jobs) as ex:
         return list(ex.map(run_case, cases))
 
